@@ -1,7 +1,7 @@
 from __future__ import annotations
 
-import codecs
 import configparser
+import io
 import os.path
 import re
 import shelve
@@ -345,7 +345,9 @@ class VFSZip(VFS_Real):
         fp = self.zip.open(item)
         if mode == "r":
             # Attempted to read in "text mode", so decode the bytestream
-            fp = codecs.getreader("utf-8")(fp, errors=errors)
+            # (the same way open() reads a text file: a codecs reader would
+            # also end lines at form feeds, NEL, U+2028 and the like)
+            fp = io.TextIOWrapper(fp, encoding="utf-8", errors=errors)
 
         return fp
 
